@@ -355,6 +355,15 @@ func emitData(out *sx.Out, i int, typ auparse.AuditMessageType, raw string, want
 			}
 			close(done)
 		}()
+		// the parser must be a function of its input: half of the records are preceded by a near copy that is parsed and decoded
+		if i%2 == 1 && len(raw) > 1 {
+			for _, v := range []string{raw[:len(raw)-1], raw + "0"} {
+				if pm, e := auparse.Parse(typ, v); e == nil {
+					pm.Data()
+					pm.Tags()
+				}
+			}
+		}
 		m, perr = auparse.Parse(typ, raw)
 		if perr != nil {
 			return
